@@ -30,6 +30,7 @@ The loader applies these rewrites, each of which preserves behaviour exactly, be
      reference arguments is replaced by what it returns: parameters substituted, `if <constant>` folded, once-used
      locals written out - provided the body then is straight-line and ends in one `return E`.
      (`def reduce_row(op): return ns.reduce(op, axis="dim")` ... `self.sum = reduce_row(torch.sum)`)
+ K12 `a, b = x, y` (plain names on the left, as many values on the right, no value mentions a target) -> `a = x; b = y`.
  K3  `not (a == b)` -> `a != b`, `not (a != b)` -> `a == b`, `not (a is b)` -> `a is not b`, `not (a in b)` -> `a not in b`
      (and the inverses `not (a is not b)`, `not (a not in b)`), for single-operator comparisons.
 
@@ -669,6 +670,38 @@ def _const_truth(e):
     return None
 
 
+def _split_tuple_assignments(tree, count):
+    def block(stmts):
+        out = []
+        for st in stmts:
+            if not isinstance(st, (ast.FunctionDef, ast.AsyncFunctionDef, ast.ClassDef)) or True:
+                for fld in ("body", "orelse", "finalbody"):
+                    blk = getattr(st, fld, None)
+                    if isinstance(blk, list) and blk and isinstance(blk[0], ast.stmt):
+                        setattr(st, fld, block(blk))
+                for h in getattr(st, "handlers", []) or []:
+                    h.body = block(h.body)
+            if (
+                isinstance(st, ast.Assign)
+                and len(st.targets) == 1
+                and isinstance(st.targets[0], (ast.Tuple, ast.List))
+                and isinstance(st.value, (ast.Tuple, ast.List))
+                and len(st.targets[0].elts) == len(st.value.elts)
+                and all(isinstance(t, ast.Name) for t in st.targets[0].elts)
+                and not any(isinstance(v, ast.Starred) for v in st.value.elts)
+            ):
+                tn = {t.id for t in st.targets[0].elts}
+                if len(tn) == len(st.targets[0].elts) and not any(isinstance(y, ast.Name) and y.id in tn for v in st.value.elts for y in ast.walk(v)) and not any(isinstance(y, (ast.Lambda, ast.NamedExpr, ast.Yield, ast.Await)) for v in st.value.elts for y in ast.walk(v)):
+                    for t, v in zip(st.targets[0].elts, st.value.elts):
+                        out.append(ast.copy_location(ast.Assign(targets=[t], value=v), st))
+                    count["K12"] = count.get("K12", 0) + 1
+                    continue
+            out.append(st)
+        return out
+
+    tree.body = block(tree.body)
+
+
 def _inline_local_factories(fn, count):
     helpers = {}
     stores = {}
@@ -866,6 +899,7 @@ def canonicalise(tree):
     ex.visit(tree)
     count = dict(ex.count)
     count["K1"] = 0
+    _split_tuple_assignments(tree, count)
     _inline_module_constants(tree, count)
     # K8: table loops (module constants are visible in every function of the module)
     module_tables = _once_bound_literals(tree.body, tree)
